@@ -685,6 +685,136 @@ theorem chunked_bytes (names : List Bytes) (recs : List Rec) (hv : ∀ r ∈ rec
     ((readAllChunks false false names k (encodeAll recs)).map (·.2)).flatten = encodeAll recs :=
   (readAllChunks_spec names recs hv k hk).2
 
+/-! ### header round trip, whole files, write back with header replay and EOF block -/
+
+theorem readZeroTerm_encode (name rest : Bytes) (h : ∀ b ∈ name, b ≠ 0) :
+    readZeroTerm (name ++ 0 :: rest) = some (name, rest) := by
+  induction name with
+  | nil => simp [readZeroTerm]
+  | cons b bs ih =>
+    have hb : b ≠ 0 := h b (by simp)
+    simp only [List.cons_append, readZeroTerm, hb, if_false]
+    rw [ih (fun c hc => h c (by simp [hc]))]
+    rfl
+
+theorem parseRefs_encode (refs : List (Bytes × Nat)) (rest : Bytes)
+    (h : ∀ p ∈ refs, (∀ b ∈ p.1, b ≠ 0) ∧ p.2 < 4294967296) :
+    parseRefs refs.length (encodeRefs refs ++ rest) = some (refs, rest) := by
+  induction refs with
+  | nil => simp [parseRefs, encodeRefs]
+  | cons p ps ih =>
+    have hp := h p (by simp)
+    have h32 : (256 : Nat) ^ 4 = 4294967296 := by decide
+    have e : encodeRefs (p :: ps) ++ rest
+        = toLE 4 (p.1.length + 1) ++ (p.1 ++ 0 :: (toLE 4 p.2 ++ (encodeRefs ps ++ rest))) := by
+      simp [encodeRefs]
+    rw [e]
+    simp only [List.length_cons, parseRefs]
+    rw [List.drop_left' (toLE_length 4 _), readZeroTerm_encode _ _ hp.1]
+    simp only
+    rw [List.drop_left' (toLE_length 4 _), List.take_left' (toLE_length 4 _),
+      fromLE_toLE 4 _ (by omega), ih (fun q hq => h q (by simp [hq]))]
+    rfl
+
+theorem validHeader_facts (text : Bytes) (refs : List (Bytes × Nat)) (hv : validHeader text refs = true) :
+    text.length < 4294967296 ∧ refs.length < 4294967296 ∧ ∀ p ∈ refs, (∀ b ∈ p.1, b ≠ 0) ∧ p.2 < 4294967296 := by
+  simp only [validHeader, Bool.and_eq_true, decide_eq_true_eq, List.all_eq_true, bne_iff_ne, ne_eq] at hv
+  exact ⟨hv.1.1, hv.1.2, fun p hp => ⟨fun b hb => (hv.2 p hp).1 b hb, (hv.2 p hp).2⟩⟩
+
+/-- **header round trip**: for every valid header (any text, any number of references, any names without
+NUL, any lengths), parsing the encoded header followed by the record area yields the references and
+exactly the record area -/
+theorem parseHeader_encode (text : Bytes) (refs : List (Bytes × Nat)) (hv : validHeader text refs = true)
+    (body : Bytes) : parseHeader (encodeHeader text refs ++ body) = some (refs, body) := by
+  obtain ⟨ht, hn, hr⟩ := validHeader_facts text refs hv
+  have h32 : (256 : Nat) ^ 4 = 4294967296 := by decide
+  have e : encodeHeader text refs ++ body
+      = [66, 65, 77, 1] ++ (toLE 4 text.length ++ (text ++ (toLE 4 refs.length ++ (encodeRefs refs ++ body)))) := by
+    simp [encodeHeader]
+  unfold parseHeader
+  rw [e]
+  have hmagic : List.take 4 ([66, 65, 77, 1] ++ (toLE 4 text.length ++ (text ++ (toLE 4 refs.length ++ (encodeRefs refs ++ body)))))
+      = [66, 65, 77, 1] := by simp
+  rw [if_pos hmagic]
+  have hl : slice ([66, 65, 77, 1] ++ (toLE 4 text.length ++ (text ++ (toLE 4 refs.length ++ (encodeRefs refs ++ body))))) 4 4
+      = toLE 4 text.length := slice_seg _ _ _ _ _ rfl (toLE_length 4 _).symm
+  simp only [hl, fromLE_toLE 4 _ (show text.length < 256 ^ 4 by omega)]
+  have hd : List.drop (8 + text.length) ([66, 65, 77, 1] ++ (toLE 4 text.length ++ (text ++ (toLE 4 refs.length ++ (encodeRefs refs ++ body)))))
+      = toLE 4 refs.length ++ (encodeRefs refs ++ body) := by
+    have : [66, 65, 77, 1] ++ (toLE 4 text.length ++ (text ++ (toLE 4 refs.length ++ (encodeRefs refs ++ body))))
+        = ([66, 65, 77, 1] ++ (toLE 4 text.length ++ text)) ++ (toLE 4 refs.length ++ (encodeRefs refs ++ body)) := by simp
+    rw [this]
+    exact List.drop_left' (by simp [toLE_length]; omega)
+  rw [hd, List.take_left' (toLE_length 4 _), List.drop_left' (toLE_length 4 _),
+    fromLE_toLE 4 _ (show refs.length < 256 ^ 4 by omega)]
+  exact parseRefs_encode refs body hr
+
+theorem headerBytes_encode (text : Bytes) (refs : List (Bytes × Nat)) (hv : validHeader text refs = true)
+    (body : Bytes) : headerBytes (encodeHeader text refs ++ body) = encodeHeader text refs := by
+  unfold headerBytes
+  rw [parseHeader_encode text refs hv body]
+  simp
+
+/-- **whole file**: a BAM file (any BGZF blocking `members` of header ++ records) reads back as its
+references and its records -/
+theorem file_roundtrip (text : Bytes) (refs : List (Bytes × Nat)) (hh : validHeader text refs = true)
+    (recs : List Rec) (hv : ∀ r ∈ recs, valid refs.length r = true) (members : List Bytes)
+    (hm : gunzip members = encodeHeader text refs ++ encodeAll recs) :
+    readFile false false members = some (refs, recs.map (view (refs.map Prod.fst))) := by
+  have hv' : ∀ r ∈ recs, valid (refs.map Prod.fst).length r = true := by
+    intro r hr; rw [List.length_map]; exact hv r hr
+  have hd := decode_encode (refs.map Prod.fst) recs hv'
+  simp only [readFile, hm, parseHeader_encode text refs hh, hd]
+
+/-- **write back with header replay and EOF block**: writing any selection of the records read from a file
+gives a file (header replayed byte for byte, selected records, BGZF EOF block) that reads back as the same
+references and exactly the selected records -/
+theorem write_file (text : Bytes) (refs : List (Bytes × Nat)) (hh : validHeader text refs = true)
+    (recs : List Rec) (hv : ∀ r ∈ recs, valid refs.length r = true) (members : List Bytes)
+    (hm : gunzip members = encodeHeader text refs ++ encodeAll recs)
+    (idx : List Nat) (hidx : ∀ i ∈ idx, i < recs.length) :
+    writeFile members idx = [encodeHeader text refs ++ encodeAll (idx.filterMap (recs[·]?)), []] ∧
+    readFile false false (writeFile members idx)
+      = some (refs, (idx.filterMap (recs[·]?)).map (view (refs.map Prod.fst))) := by
+  have hv' : ∀ r ∈ recs, valid (refs.map Prod.fst).length r = true := by
+    intro r hr; rw [List.length_map]; exact hv r hr
+  have hsel : selectBytes (addNewline (encodeAll recs)) idx = encodeAll (idx.filterMap (recs[·]?)) := by
+    unfold addNewline
+    split
+    · have := selectBytes_encode (refs.map Prod.fst) recs hv' [] stops_nil idx hidx
+      simpa using this
+    · exact selectBytes_encode (refs.map Prod.fst) recs hv' [10] stops_newline idx hidx
+  have hw : writeFile members idx = [encodeHeader text refs ++ encodeAll (idx.filterMap (recs[·]?)), []] := by
+    simp only [writeFile, hm, parseHeader_encode text refs hh, headerBytes_encode text refs hh, hsel]
+  refine ⟨hw, ?_⟩
+  rw [hw]
+  apply file_roundtrip text refs hh _ _ _ (by simp [gunzip])
+  intro r hr
+  simp only [List.mem_filterMap] at hr
+  obtain ⟨i, _, hi⟩ := hr
+  exact hv r (List.mem_of_getElem? hi)
+
+/-- **chunk stream written back**: `write(read_chunks(k))` with any chunk size at least the largest record
+reproduces header and record area byte for byte (plus the EOF block), so it reads back as the same file -/
+theorem write_chunks (text : Bytes) (refs : List (Bytes × Nat)) (hh : validHeader text refs = true)
+    (recs : List Rec) (hv : ∀ r ∈ recs, valid refs.length r = true) (members : List Bytes)
+    (hm : gunzip members = encodeHeader text refs ++ encodeAll recs)
+    (k : Nat) (hk : ∀ r ∈ recs, (encodeRec r).length ≤ k) :
+    writeChunks false false members k = [encodeHeader text refs ++ encodeAll recs, []] ∧
+    readFile false false (writeChunks false false members k) = some (refs, recs.map (view (refs.map Prod.fst))) := by
+  have hv' : ∀ r ∈ recs, valid (refs.map Prod.fst).length r = true := by
+    intro r hr; rw [List.length_map]; exact hv r hr
+  have hw : writeChunks false false members k = [encodeHeader text refs ++ encodeAll recs, []] := by
+    have hb := chunked_bytes (refs.map Prod.fst) recs hv' k hk
+    simp only [writeChunks, hm, parseHeader_encode text refs hh, headerBytes_encode text refs hh, hb]
+  refine ⟨hw, ?_⟩
+  rw [hw]
+  exact file_roundtrip text refs hh recs hv _ (by simp [gunzip])
+
+/-- Gen obligation: the EOF block the writer appends is the 28-byte block of the specification; as a gzip
+member it has an empty payload (ISIZE = 0, last four bytes) -/
+theorem gen_eof_marker : Gen.C16.eofMarker = specEof ∧ specEof.drop 24 = [0, 0, 0, 0] := by decide
+
 /-! ### unmapped records -/
 
 /-- **C16 unmapped clause** (repaired rule): a record with a negative refID decodes to "no
@@ -760,6 +890,97 @@ theorem ref_interval_file (names : List Bytes) (recs : List Rec) (hv : ∀ r ∈
   apply List.map_congr_left
   intro r _
   exact ref_interval names r
+
+/-! ### `count_reference_length` over ragged CIGAR arrays and the column-wise `alignment_to_interval` -/
+
+theorem raggedRows_cons (row rest : List Nat) (lens : List Nat) :
+    raggedRows (row ++ rest) (row.length :: lens) = row :: raggedRows rest lens := by
+  simp [raggedRows]
+
+theorem maskOf_spec (op : Nat) : maskOf [0, 2, 3, 7, 8] op = if specConsumes op then 1 else 0 := by
+  have e : ∀ a : Nat, (a == op) = (op == a) := fun a => by
+    cases h : (a == op) <;> cases h' : (op == a) <;> simp_all
+  simp only [maskOf, List.any_cons, List.any_nil, Bool.or_false, specConsumes, e, Bool.or_assoc]
+
+theorem rowProd_append (codes o1 o2 l1 l2 : List Nat) (h : o1.length = l1.length) :
+    rowProd codes (o1 ++ o2) (l1 ++ l2) = rowProd codes o1 l1 ++ rowProd codes o2 l2 := by
+  unfold rowProd
+  rw [List.map_append, List.zip_append (by simpa using h), List.map_append]
+
+theorem rowProd_length (codes o l : List Nat) (h : o.length = l.length) : (rowProd codes o l).length = o.length := by
+  simp [rowProd, h]
+
+/-- one row of `mask * lengths` summed = the reference length of that CIGAR -/
+theorem row_sum (c : List (Nat × Nat)) :
+    (rowProd [0, 2, 3, 7, 8] (c.map Prod.fst) (c.map Prod.snd)).sum = specRefLen c := by
+  induction c with
+  | nil => rfl
+  | cons p c ih =>
+    obtain ⟨op, l⟩ := p
+    unfold rowProd at ih ⊢
+    simp only [List.map_cons, List.zip_cons_cons, List.sum_cons, specRefLen, ih, maskOf_spec]
+    cases specConsumes op <;> simp
+
+theorem countReferenceLength_rows (cs : List (List (Nat × Nat))) :
+    countReferenceLength [0, 2, 3, 7, 8] (cs.map (List.map Prod.fst)).flatten (cs.map (List.map Prod.snd)).flatten
+      (cs.map List.length) = cs.map specRefLen := by
+  unfold countReferenceLength
+  induction cs with
+  | nil => rfl
+  | cons c cs ih =>
+    simp only [List.map_cons, List.flatten_cons]
+    rw [rowProd_append _ _ _ _ _ (by simp)]
+    have hl : c.length = (rowProd [0, 2, 3, 7, 8] (c.map Prod.fst) (c.map Prod.snd)).length := by
+      rw [rowProd_length _ _ _ (by simp)]; simp
+    rw [hl, raggedRows_cons, List.map_cons, row_sum, ih]
+
+theorem zip_maps {α β γ δ} (l : List α) (g : α → β) (h : α → γ) (F : α × β × γ → δ) :
+    (l.zip ((l.map g).zip (l.map h))).map F = l.map (fun a => F (a, g a, h a)) := by
+  induction l with
+  | nil => rfl
+  | cons a l ih => simp [ih]
+
+/-- Gen obligation: the op codes `count_reference_length` compares with are those of M, D, N, =, X
+(derived from the behavioural table `consumes`) -/
+theorem gen_consuming_codes : Gen.C16.consumingCodes = [0, 2, 3, 7, 8] ∧
+    Gen.C16.consumes = (List.range 9).map (fun op => Gen.C16.consumingCodes.any (· == op)) := by decide
+
+/-- **C16 interval clause, as the code computes it**: `alignment_to_interval` (and `BamIntervalBuffer`),
+column-wise over the ragged CIGAR arrays of a whole table of decoded records, gives for every record
+`[pos, pos + Σ reference-consuming lengths)`, name, mapq and the strand of flag bit 0x10 -/
+theorem alignment_to_interval_cols (names : List Bytes) (recs : List Rec) :
+    alignmentToInterval Gen.C16.consumingCodes (recs.map (view names)) = recs.map (specInterval names) := by
+  rw [gen_consuming_codes.1]
+  unfold alignmentToInterval
+  have h1 : (recs.map (view names)).map DRec.cigOp = (recs.map Rec.cigar).map (List.map Prod.fst) := by
+    simp [List.map_map, view, Function.comp_def]
+  have h2 : (recs.map (view names)).map DRec.cigLen = (recs.map Rec.cigar).map (List.map Prod.snd) := by
+    simp [List.map_map, view, Function.comp_def]
+  have h3 : (recs.map (view names)).map (fun d => d.cigOp.length) = (recs.map Rec.cigar).map List.length := by
+    simp [List.map_map, view, Function.comp_def]
+  have hlen : (recs.map Rec.cigar).map specRefLen = (recs.map (view names)).map (fun d => specRefLen (d.cigOp.zip d.cigLen)) := by
+    simp only [List.map_map, Function.comp_def, view]
+    apply List.map_congr_left
+    intro r _
+    congr 1
+    induction r.cigar with
+    | nil => rfl
+    | cons p c ih => simp [← ih]
+  simp only [h1, h2, h3, countReferenceLength_rows, hlen, zip_maps]
+  simp only [List.map_map, Function.comp_def]
+  apply List.map_congr_left
+  intro r _
+  have hz : (view names r).cigOp.zip (view names r).cigLen = r.cigar := by
+    simp only [view]
+    induction r.cigar with
+    | nil => rfl
+    | cons p c ih => simp [ih]
+  simp only [hz]
+  unfold specInterval
+  simp only [view, and16]
+  congr 1
+  have : r.flag / 16 % 2 = 0 ∨ r.flag / 16 % 2 = 1 := by omega
+  rcases this with h | h <;> simp [h]
 
 /-! ### Gen obligations: alphabets, repaired rules, fixed offsets (re-extracted from /repo every run) -/
 
